@@ -195,7 +195,9 @@ Definition dispatch (f : Z) (x : sx) : sx :=
                   L [of_list call_sx cs;
                      of_option (fun e => A (perr_code e)) e]
               | PRaise _ => L []
-              end])
+              end;
+              (* iter_reference() called directly, whatever the locale *)
+              of_pres (of_list entry_sx) (iter_reference (t_prefix tab) matches sub fs pf)])
         (build (t_prefix tab) (fun a b => N.eqb (t_pat tab a) (t_pat tab b)) (t_real rtab) (t_wl tab) (t_wm tab)
                locale has_merge ps)
   | 1 => (* posixpath.dirname *)
